@@ -166,6 +166,12 @@ Step ==
                LET ra == Read(s, ins.a, ins.w, ln)
                    rb == Read(ra[2], ins.b, ins.w, ln)
                IN Commit([rb[2] EXCEPT !.fl = [k |-> "cmp", a |-> ra[1], b |-> rb[1]]], pc + 1) /\ UNCHANGED nsb
+          [] ins.cl = "test" ->
+               LET ra == Read(s, ins.a, ins.w, ln)
+                   rb == Read(ra[2], ins.b, ins.w, ln)
+                   same == ins.a.k = "r" /\ ins.b.k = "r" /\ ins.a.r = ins.b.r
+                   res == IF same THEN ra[1] ELSE Alu("and", rb[1], ra[1])
+               IN Commit([rb[2] EXCEPT !.fl = [k |-> "alu", a |-> res, b |-> Pub(0)]], pc + 1) /\ UNCHANGED nsb
           [] ins.cl = "jcc" ->
                LET a == s.fl.a  b == s.fl.b
                IN IF s.fl.k = "cmp" /\ a.t = "pub" /\ b.t = "pub"
